@@ -277,6 +277,14 @@ func c01Atoms(thorough bool) []qAtom {
 		add("dotted-3hop", true, rm.Cmp{L: fn("reports.boss.reports.s"), Op: "=", R: S("a")})
 	}
 	add("dotted-3hop", true, rm.IsEmpty{Sym: "boss.reports"})
+	// the value of a count over a multi-hop set (bag or set of elements?) is not settled by the documentation: these
+	// atoms are only required to give the same answer on every route and on committed / uncommitted pages
+	for _, n := range []int64{0, 1, 2} {
+		add("route-only:multi-hop-count", false, rm.Cmp{L: countOf("reports.reports"), Op: "=", R: I(n)})
+		add("route-only:multi-hop-count", false, rm.Cmp{L: countOf("reports.places"), Op: ">", R: I(n)})
+		add("route-only:multi-hop-count", false, rm.Cmp{L: countOf("reports.roles"), Op: ">=", R: I(n)})
+		add("route-only:multi-hop-count", false, rm.Cmp{L: countOf("boss.reports"), Op: "=", R: I(n)})
+	}
 	add("dotted-2hop-set", true, rm.IsEmpty{Sym: "reports.reports"})
 	add("dotted-2hop-set", true, rm.IsEmpty{Sym: "reports.places"})
 	add("dotted-link-name", true, rm.IsEmpty{Sym: "places.name"})
@@ -494,11 +502,15 @@ func c01RunFamily(rep *report.Report, key string, ids []string, filters []*c01Fi
 		}
 		// every (filter, dataset) pair is evaluated twice: inside the transaction that wrote the dataset
 		// (uncommitted pages) and in a read transaction after the commit (committed pages)
+		unspecSeen := map[string]string{} // per dataset: filter text -> answer inside the writing transaction
 		evalAll := func(tx *bbolt.Tx, mode string) {
 			for _, p := range parsed {
 				var want []string
-				unspecified := false
+				unspecified := strings.HasPrefix(p.f.class, "route-only")
 				for _, id := range ds.Stores["people"].Ids() {
+					if unspecified {
+						break
+					}
 					switch ds.Eval("people", id, p.f.e) {
 					case rm.True:
 						want = append(want, id)
@@ -508,6 +520,29 @@ func c01RunFamily(rep *report.Report, key string, ids []string, filters []*c01Fi
 				}
 				if unspecified {
 					rep.Count("rows_skipped_unspecified", 1)
+					// the documentation does not settle the answer, but it still must not depend on the route taken
+					// (scan vs cursor iteration) nor on whether the data is committed yet
+					var a, b []string
+					var pan interface{}
+					func() {
+						defer func() { pan = recover() }()
+						a, _, _ = w.people.QueryIdsC(tx, p.q)
+						b = drain(w.people.IterateIds(tx, p.q))
+					}()
+					key := p.f.text
+					switch {
+					case pan != nil:
+						rep.Violation("C01|panic-in-eval|"+p.f.text, fmt.Sprintf("%q panicked on %s: %v", p.f.text, label, pan), map[string]interface{}{"filter": p.f.text, "dataset": label})
+					case strings.Join(a, ",") != strings.Join(b, ","):
+						rep.Violation("C01|routes-disagree|"+p.f.text, fmt.Sprintf("%q on %s [%s]: QueryIdsC = %v but IterateIds = %v", p.f.text, label, mode, a, b), map[string]interface{}{"filter": p.f.text, "dataset": label})
+					case mode == "uncommitted":
+						unspecSeen[key] = strings.Join(a, ",")
+					default:
+						if prev, ok := unspecSeen[key]; ok && prev != strings.Join(a, ",") {
+							rep.Violation("C01|pages-disagree|"+p.f.text, fmt.Sprintf("%q on %s: %v inside the writing transaction, %v after the commit", p.f.text, label, prev, a), map[string]interface{}{"filter": p.f.text, "dataset": label})
+						}
+					}
+					rep.Count("unspecified_rows_route_agreement_checks", 1)
 					continue
 				}
 				rep.Count("evaluations", 1)
